@@ -35,7 +35,7 @@ var keywords = map[string]bool{"do": true, "if": true, "for": true, "int": true,
 	"char": true, "else": true, "enum": true, "goto": true, "long": true, "null": true, "this": true, "true": true, "void": true, "to": true, "with": true, "non": true}
 
 func gen(t *rapid.T) Case {
-	p := jgen.GenProject(t, jgen.Opts{Bodies: true, MultiByte: true, Interfaces: true, MaxUnits: 4, MaxMethods: 4, Wide: true, RichDecl: true})
+	p := jgen.GenProject(t, jgen.Opts{Bodies: true, MultiByte: true, Interfaces: true, MaxUnits: 4, MaxMethods: 4, Wide: true, RichDecl: true, SharedMethodNames: true})
 	// some files use CRLF line ends: columns and lines are unaffected, every other byte must survive
 	for i := range p.Files {
 		if strings.HasSuffix(p.Files[i].Path, ".java") && rapid.IntRange(0, 7).Draw(t, "crlf") == 0 {
